@@ -1220,7 +1220,7 @@ def _cimvalue(value, type_, p, what):
     """
     try:
         return cimvalue(value, type_)
-    except (ValueError, TypeError) as exc:
+    except (ValueError, TypeError, OverflowError) as exc:
         raise MOFParseError(
             msg=_format("Invalid value {0!A} for {1} of type {2!A}: {3}",
                         value, what, type_, exc),
@@ -1235,7 +1235,7 @@ def _cimproperty(p, name, value, **kwargs):
     """
     try:
         return CIMProperty(name, cimvalue(value, kwargs['type']), **kwargs)
-    except (ValueError, TypeError) as exc:
+    except (ValueError, TypeError, OverflowError) as exc:
         raise MOFParseError(
             msg=_format("Invalid default value {0!A} for property {1!A}: {2}",
                         value, name, exc),
@@ -1359,8 +1359,8 @@ def p_referenceDeclaration(p):
         if len(p) == 5:
             dv = p[3]
     quals = OrderedDict([(x.name, x) for x in quals])
-    p[0] = CIMProperty(pname, dv, type='reference',
-                       reference_class=cname, qualifiers=quals)
+    p[0] = _cimproperty(p, pname, dv, type='reference',
+                        reference_class=cname, qualifiers=quals)
 
 
 def p_methodDeclaration(p):
@@ -2004,7 +2004,7 @@ def p_instanceDeclaration(p):
                             parser_token=p)
                 pprop.value = cimvalue(pval, cprop.type)
             inst.properties[pname] = pprop
-        except (ValueError, TypeError) as ve:
+        except (ValueError, TypeError, OverflowError) as ve:
             raise MOFParseError(
                 msg=_format(
                     "Cannot compile instance of {0!A} because it specifies "
